@@ -10,7 +10,8 @@
                       dir hidden fork nested unsup oversize symlink hardlink chardev fifo    skip kinds
                       linkPrev symPrev    tar hard / symbolic link whose target is the PRECEDING member
                                           (the host-targeted symlink / hardlink kinds name a canary host file)
-                nc    name class:  plain nested unicode dotslash | absolute dotdot dotdotIn backslash drive empty
+                nc    name class:  plain nested unicode dotslash | dup (the SAME name as the preceding member:
+                      tar -r / zipfile "a" append a second entry under an existing name) | absolute dotdot dotdotIn backslash drive empty
                       long hostname      (POSIX host: backslash and drive letters are ordinary characters)
      consumer = Exhaust | CloseAfter(k) | Abandon(k) | Throw(k)      (hist; executed literally by the binding)
      state    = gen   fresh | running | suspended | exhausted | closed | failed | collected
@@ -37,6 +38,8 @@
      "NoCleanupOnEarlyExit"    temp dir not tied to the generator's frame (mkdtemp without context manager)
      "ExtractToCwd"            tar members extracted to the working directory instead of read in memory
      "YieldHidden"             hidden-member rule dropped
+     "ReadByName"              ZIP / TAR member bytes fetched by NAME (zf.read(name), tf.extractfile(name)): with
+                               several entries of one name every one of them comes out with the LAST entry's bytes
      "FollowHardlinks"         tar hard links pass the regular-file test: tarfile.extractfile resolves the
                                link to its target's data, the skip rules see only the link's own name
 
@@ -53,7 +56,7 @@ EXTENDS Naturals, Sequences, FiniteSets, TLC
 CONSTANTS Fmts, MemberTypes, MaxMembers, MaxK, Deviations
 
 DeviationNames == {"RereadUnchecked", "MemberErrorKillsArchive", "FolderErrorKillsArchive",
-                   "NoCleanupOnEarlyExit", "ExtractToCwd", "YieldHidden", "FollowHardlinks"}
+                   "NoCleanupOnEarlyExit", "ExtractToCwd", "YieldHidden", "FollowHardlinks", "ReadByName"}
 ASSUME Deviations \subseteq DeviationNames
 Dev(d) == d \in Deviations
 
@@ -75,7 +78,7 @@ Finished    == {"exhausted", "closed", "failed", "collected"}
 Applicable(f, m) == /\ (m.kind = "nostream") => f = "7z"
                     /\ (m.kind \in TarOnly) => f = "tar"
 HasData(m)  == m.kind \in {"doc", "corrupt", "hidden", "fork", "nested", "unsup", "oversize"}
-Written7z(m) == HasData(m) \/ m.kind = "emptyFile"       \* what extractall puts below the temp dir
+Written7z(m) == m.kind \in {"doc", "corrupt", "emptyFile"}  \* extractall(members = the entries that passed the filters)
 
 (* sevenzip._safe_join(temp_dir, name) on a POSIX host *)
 SafeJoin(nc) == CASE nc \in {"absolute", "dotdot"} -> "Reject"
@@ -89,7 +92,7 @@ WriteFails(nc) == nc \in {"empty", "long"}               \* open(.., "wb"): IsAD
 
 Contribution(m) ==
     IF m.kind \in SkipKinds THEN "mustnot"
-    ELSE IF m.kind \in {"doc", "emptyFile"} /\ m.nc \in BenignNC THEN "must"
+    ELSE IF m.kind \in {"doc", "emptyFile"} /\ m.nc \in BenignNC \cup {"dup"} THEN "must"
     ELSE "dontcare"
 (* links inside the archive: the member a link finally designates (0 = none: first member, host target) *)
 RECURSIVE Resolve(_, _)
@@ -97,6 +100,12 @@ Resolve(mm, j) == IF mm[j].kind \in LinkPrev THEN (IF j = 1 THEN 0 ELSE Resolve(
 (* position-aware oracle: a link to a hidden / unsupported / oversize / ... member must not produce results
    (its content would be the skipped member's); a link to a document is DON'T-CARE (the documentation does not
    say whether links inside an archive are followed) *)
+(* several entries under one name *)
+InDupGroup(mm, j) == mm[j].nc = "dup" \/ (j < Len(mm) /\ mm[j + 1].nc = "dup")
+RECURSIVE LastSameName(_, _)
+LastSameName(mm, j) == IF j < Len(mm) /\ mm[j + 1].nc = "dup" THEN LastSameName(mm, j + 1) ELSE j
+(* ZIP, TAR and 7z alike: every entry is a member of its own and comes out with ITS bytes, also when several
+   entries bear one name (7z: since fix 800301b each pass of same-named entries is extracted to its own directory) *)
 ContribAt(mm, j) ==
     IF mm[j].kind \in LinkPrev
     THEN IF Resolve(mm, j) # 0 /\ mm[Resolve(mm, j)].kind \in {"doc", "emptyFile", "corrupt"} THEN "dontcare" ELSE "mustnot"
@@ -113,15 +122,21 @@ MT_C09 == ({"doc"} \X (BenignNC \cup HostileNC))
           \cup ({"nostream"} \X {"plain", "absolute", "dotdot"})
           \cup ({"emptyFile"} \X {"plain", "absolute"})
           \cup ((SkipKinds \ {"dir"}) \X {"plain"}) \cup {<<"dir", "nested">>, <<"hidden", "nested">>}
+          \cup ({"doc", "oversize"} \X {"dup"})
 MT_C09s == ({"doc"} \X {"plain", "nested", "dotslash", "absolute", "dotdot", "empty", "long"})      \* representatives
           \cup ({"nostream"} \X {"plain", "absolute"})
           \cup ({"hidden", "fork", "nested", "unsup", "oversize", "symlink", "fifo", "linkPrev"} \X {"plain"})
-          \cup {<<"hidden", "nested">>}
-MT_C10 == {"doc", "emptyFile", "corrupt", "dir", "hidden", "fork", "nested", "unsup"} \X {"plain"}
+          \cup {<<"hidden", "nested">>, <<"oversize", "dup">>}
+MT_C10 == ({"doc", "emptyFile"} \X {"dup"}) \cup {"doc", "emptyFile", "corrupt", "dir", "hidden", "fork", "nested", "unsup"} \X {"plain"}
 Histories == {[t |-> "Exhaust", k |-> 0]}
              \cup { [t |-> x, k |-> n] : x \in {"CloseAfter", "Abandon", "Throw"}, n \in 0..MaxK }
+(* a "dup" member repeats the name of a preceding member that has a visible, supported name *)
+DupOK(mm, n) == mm[n].nc = "dup" =>
+                  /\ n > 1 /\ mm[n].kind \in {"doc", "emptyFile", "oversize"}
+                  /\ mm[n - 1].kind \in {"doc", "emptyFile", "oversize", "corrupt"}
+                  /\ mm[n - 1].nc \in BenignNC \cup {"dup"}
 Cases == { <<f, mm>> \in Fmts \X UNION { [1..n -> Members] : n \in 0..MaxMembers } :
-             \A n \in 1..Len(mm) : Applicable(f, mm[n]) }
+             \A n \in 1..Len(mm) : Applicable(f, mm[n]) /\ DupOK(mm, n) }
 
 Init == /\ \E c \in Cases : fmt = c[1] /\ ms = c[2]
         /\ nd = [n \in 1..Len(ms) |-> 1]
@@ -210,6 +225,8 @@ GLoop ==
                       THEN IF Dev("MemberErrorKillsArchive") /\ fmt = "zip"
                            THEN Unwind("failed", "corruptMember") /\ UNCHANGED <<results, got, idx>>
                            ELSE Skip
+                      ELSE IF Dev("ReadByName")
+                           THEN UNCHANGED fs /\ YieldOwn("archive", {LastSameName(ms, idx)})
                       ELSE IF Dev("ExtractToCwd") /\ fmt = "tar"
                            THEN fs' = fs \cup {<<"write", "Outside">>, <<"read", "Outside">>} /\ Yield("archive")
                            ELSE UNCHANGED fs /\ Yield("archive")      \* zf.read / tf.extractfile: in memory
@@ -240,10 +257,17 @@ Inv_Closed    == /\ \A n \in 1..Len(results) : results[n].src = "archive"
 Count(j) == Cardinality({ n \in 1..Len(results) : results[n].m = j })
 LastM == IF results = <<>> THEN 0 ELSE results[Len(results)].m
 Inv_Members ==
-    /\ \A n \in 1..(Len(results) - 1) : results[n].m <= results[n + 1].m            \* archive order
+    /\ \A n \in 1..(Len(results) - 1) :                                               \* archive order
+          \/ results[n].m <= results[n + 1].m
+          \/ /\ ContribAt(ms, results[n + 1].m) # "must"      \* (DON'T-CARE entries of one name cannot be told apart)
+             /\ LastSameName(ms, results[n + 1].m) >= results[n].m
     /\ \A j \in 1..Len(ms) : Count(j) <= (IF ContribAt(ms, j) = "must" THEN nd[j] ELSE Count(j))
     /\ \A j \in 1..Len(ms) :                                                         \* nothing lost
          (ContribAt(ms, j) = "must" /\ (gen = "exhausted" \/ j < LastM)) => Count(j) = nd[j]
+(* every result carries the bytes of ITS entry (entries identified by their content), also when several
+   entries bear one name *)
+Inv_OwnContent == \A n \in 1..Len(results) :
+                     (results[n].m # 0 /\ ContribAt(ms, results[n].m) = "must") => results[n].own \subseteq {results[n].m}
 (* a corrupt or unsupported member affects only itself: the archive as a whole fails only because the
    consumer threw, or (7z) because a hostile name makes extraction refuse *)
 FailAllowed == \/ cause = "consumer"
